@@ -202,6 +202,10 @@ def check_case(case):
     else:
       if not quantized[s['q']]:
         continue
+      from vq import kfpred
+      if kfpred.unsafe_findings({'model': mspec, 'recipe': cur_recipe[s['q']]}):
+        labels.append('validate_excluded:runtime_ub_finding')
+        continue
       test = {sg['sig']: engine.calibration_data(mspec, si, [s['seed']]) for si, sg in enumerate(mspec['subgraphs'])}
       test_snap = copy.deepcopy(test)
       ok, r = core.call(qt.validate, test, s['metric'])
